@@ -14,9 +14,9 @@
    code 0   agree
    code 1   A differs from the implementation's result on qa, or E from its result on qe (the
             tie is broken)
-   code 2   the implementation's result on qa differs from its result on qe (C05 violated: a name
+   code 6   the implementation's result on qa differs from its result on qe (C05 violated: a name
             is not an abbreviation of its definition on this input)
-   code 3   X differs from A: the syntactic expansion of the parsed statement, run through the
+   code 7   X differs from A: the syntactic expansion of the parsed statement, run through the
             proved twins, does not return what the statement with the names returns (the part of
             alias_text_is_expansion that is compared, not proved: the front end commutes with
             expand_stmt)
@@ -101,9 +101,9 @@ Definition check_mode (c : tcase) (row : bool) (oa oe : qobs) : nat :=
         tx_obs (tx_twin (tx_qe c) (tx_store c) m),
         tx_obs (tx_twin_x (tx_qa c) (tx_store c) m) with
   | Some a, Some e, Some x =>
-      if negb (tx_obs_eqb o oa oe) then 2
+      if negb (tx_obs_eqb o oa oe) then 6
       else if negb (tx_obs_eqb o a oa) || negb (tx_obs_eqb o e oe) then 1
-      else if negb (tx_obs_eqb o x a) then 3
+      else if negb (tx_obs_eqb o x a) then 7
       else 0
   | _, _, _ => 99
   end.
@@ -111,7 +111,7 @@ Definition check_mode (c : tcase) (row : bool) (oa oe : qobs) : nat :=
 Definition check_text (c : tcase) : nat :=
   let r := check_mode c true (tx_arow c) (tx_erow c) in
   let b := check_mode c false (tx_abat c) (tx_ebat c) in
-  if Nat.eqb r 2 || Nat.eqb b 2 then 2
+  if Nat.eqb r 6 || Nat.eqb b 6 then 6
   else if Nat.eqb r 1 || Nat.eqb b 1 then 1
-  else if Nat.eqb r 3 || Nat.eqb b 3 then 3
+  else if Nat.eqb r 7 || Nat.eqb b 7 then 7
   else Nat.max r b.
